@@ -35,7 +35,7 @@ func storesToLookupField(fn *ssa.Function, field string) []*ssa.Store {
 func c10(c *Ctx) {
 	p, r := c.P, c.R
 	r.Technique = "must-pass-through (cut) checks around the only query-spawn site and around every lookup-ending exit; pairing of the in-flight counter's increments/decrements with spawns/consumed replies; exactly-one-reply path check of the query goroutine; bounded sorted insertion check; CAS-gated result and close-after-drain ordering of the content lookup"
-	r.Explanation = "Decides: (R1) the only site that spawns a query is reached only under !asked[id] of the node it queries and marks asked[id] = true first; the constructor marks the local id asked; (R2) the spawn loop is guarded by queries < alpha with alpha = 3 (strict), every spawn increments the in-flight counter in the same step, every reply consumed (in advance and in shutdown) decrements it, and the reply channel's capacity is alpha; (R3) the query goroutine sends exactly one reply on every path; (R4) results enter only through the sorted push whose growth is bounded by len < max with max = 16 and whose position comes from DistCmp against the target; nodes are pushed only when not seen (and marked seen); (R5) content lookup: the result send and cancel() happen only after a successful compare-and-swap 0->1 of the shared flag, close(resultChannel) comes after run() has returned, and the result is read only after the collector goroutine was joined; (R6) a lookup step reports 'ended' only when no query is in flight: a constant false from the spawn step is returned only after shutdown cleared the query function, shutdown clears it only after draining one reply per in-flight query, and advance ends only when the spawn step said so. Not decided: termination and 'no closer seen node omitted' over all peer graphs and reply orders."
+	r.Explanation = "Decides: (R1) the only site that spawns a query is reached only under !asked[id] of the node it queries and marks asked[id] = true first; the constructor marks the local id asked; (R2) the spawn loop is guarded by queries < alpha with alpha = 3 (strict), every spawn increments the in-flight counter in the same step, every reply consumed (in advance and in shutdown) decrements it, and the reply channel's capacity is alpha; (R3) the query goroutine sends exactly one reply on every path; (R4) results enter only through the sorted push whose growth is bounded by len < max with max = 16 and whose position comes from DistCmp against the target; nodes are pushed only when not seen (and marked seen); (R5) content lookup: the result send and cancel() happen only after a successful compare-and-swap 0->1 of the shared flag, the workers touch that flag through their pointer only with CompareAndSwap or Load (it stays a 0/1 flag for the owner's test), close(resultChannel) comes after run() has returned, and the result is read only after the collector goroutine was joined; (R6) a lookup step reports 'ended' only when no query is in flight: a constant false from the spawn step is returned only after shutdown cleared the query function, shutdown clears it only after draining one reply per in-flight query, and advance ends only when the spawn step said so. Not decided: termination and 'no closer seen node omitted' over all peer graphs and reply orders."
 	r.Assumptions = []string{"enode.DistCmp orders by XOR distance", "sort.Search returns the insertion point", "atomic.CompareAndSwapInt32"}
 	r.Floor("R1.ask-once", 3)
 	r.Floor("R2.alpha-bound", 5)
@@ -513,6 +513,36 @@ func c10(c *Ctx) {
 	}
 
 	// ---- R5 content lookup
+	// the winner flag is a flag: the function that owns it tests it against 1 (or 0), so every
+	// write through the pointer the workers share must be the claim 0 -> 1; a counter (Add) takes
+	// it to 2 when a second holder answers and the owner then reports not-found
+	{
+		nW := 0
+		for _, fn := range p.ModuleFuncs() {
+			if fn.Pkg != p.SSAPkg("portalwire") && (fn.Parent() == nil || fn.Parent().Pkg != p.SSAPkg("portalwire")) {
+				continue
+			}
+			for _, pa := range fn.Params {
+				pt, ok := pa.Type().(*types.Pointer)
+				if !ok {
+					continue
+				}
+				if bt, ok := pt.Elem().Underlying().(*types.Basic); !ok || bt.Kind() != types.Int32 {
+					continue
+				}
+				core.Calls(fn, func(ci ssa.CallInstruction) {
+					id := core.CalleeID(ci)
+					if !strings.HasPrefix(id, "sync/atomic.") || len(ci.Common().Args) == 0 || ci.Common().Args[0] != ssa.Value(pa) {
+						return
+					}
+					nW++
+					okOp := id == "sync/atomic.CompareAndSwapInt32" || id == "sync/atomic.LoadInt32"
+					r.Check(okOp, "R5.content-lookup", fmt.Sprintf("%s flag-op %s", core.FuncName(fn), strings.TrimPrefix(id, "sync/atomic.")), p.Pos(ci.Pos()), "the shared winner flag is only claimed (CAS) or read", "the shared winner flag is written with "+strings.TrimPrefix(id, "sync/atomic.")+": it is no longer a 0/1 flag, and the lookup that tests it against a constant reports not-found although a peer supplied the content (two holders in flight)")
+				})
+			}
+		}
+		r.Check(nW >= 1, "R5.content-lookup", "winner-flag operations", "-", fmt.Sprintf("%d atomic operations on the shared flag inspected", nW), fmt.Sprintf("only %d atomic operations on a shared *int32 flag found", nW))
+	}
 	for _, fn := range p.ModuleFuncs() {
 		for _, ci := range core.CallsTo(fn, "sync/atomic.CompareAndSwapInt32") {
 			if fn.Pkg != p.SSAPkg("portalwire") {
